@@ -58,6 +58,12 @@ def handle : List String → String
       match ins.mapM parseSIn with
       | some es => renderSSt (srun es)
       | none => "bad-op"
+  | "scatterprov" :: ins =>
+      match ins.mapM parseSIn with
+      | some es =>
+          let ps := srunProv 0 {} es
+          if ps.isEmpty then "-" else ",".intercalate (ps.map (fun p => (if p.2.1 then "size:" else "") ++ renderTag p.1 ++ "<-" ++ toString p.2.2))
+      | none => "bad-op"
   | "gatherprov" :: d :: evs =>
       match d.toNat?, evs.mapM parseEv with
       | some depth, some es =>
